@@ -95,7 +95,7 @@ func listingOrderRule(r *core.Report, rule string, f *core.Func, want token.Toke
 					why = fmt.Sprintf("comparator orders %s, want %s", si.Op, want)
 					continue
 				}
-				if si.KeyI != core.ExprStr(si.Slice)+"[·]" {
+				if !si.keyIsElement() {
 					why = "comparator key is not the element itself: " + si.KeyI
 					continue
 				}
